@@ -17,13 +17,17 @@ func init() { core.Register(prop{}) }
 func (prop) ID() string { return "C17" }
 func (prop) Rule() string {
 	return "node-lite histories with netstore + retrieval over a second real node: 1-3 initial uploads / cached files, then 6-18 ops: uploads, pyramid exchange and PARTIAL fetches of files and directory entries, " +
-		"local reads of manifest / intermediate / data chunks under a file context (`get`, and the reads pin traversals make), discovery answers from the peer (`ask`), chunks of the file served TO the peer (`serve`: the peer's retrieval request answered by the node's real handler, which records the transfer in the availability record it keeps for the peer), chunkinfo restarts from the state store (`reinit`), deletions and collection runs. " +
+		"local reads of manifest / intermediate / data chunks under a file context (`get`, and the reads pin traversals make), the same reads with a failing local store (`getfault`: the storer netstore reads through answers the read of exactly that chunk — stored or not — with an error other than not-found; the real netstore.Get must report the error, not go to the peer and record nothing), discovery answers from the peer (`ask`), chunks of the file served TO the peer (`serve`: the peer's retrieval request answered by the node's real handler, which records the transfer in the availability record it keeps for the peer), chunkinfo restarts from the state store (`reinit`), deletions and collection runs. " +
 		"Fixed regression histories first. After every op status + symbolic dump (availability / discovery / source tables with their bit vectors, state-store keys) are compared with the Lean model; " +
 		"the oracle checks after every op: every set self-presence bit i has data chunk i stored (positions = distinct data chunks in traversal order, addresses computed from the content), an all-set vector has all data chunks stored, " +
 		"after delete / eviction / restart no table entry and no state-store key mentioning the root (any prefix, any overlay) remains, and for a file that was removed once an availability record for the peer exists (memory or state store) only for what was transferred to it since — also after re-upload / re-caching and restart. Non-trivial: >=1 partially fetched file and >=1 chunk read under a file context or delete; distinct by op-list hash."
 }
 
 var fixed = []core.Case{
+	// a read under the file context whose LOCAL read fails with an error other than not-found (I/O error ...) reports the error and
+	// records nothing: d1 is not stored (its bit / source entry must not appear, also not after a restart), d0 is stored (nothing changes)
+	{ID: "fix-read-fault-not-recorded", NT: true, Ops: []string{"pup x/AB 0", "pyr x/AB", "fetch x/AB 0 10", "getfault x/AB d1", "getfault x/AB d0", "reinit"}},
+	{ID: "fix-read-fault-last-missing-bit", NT: true, Ops: []string{"pup q/ABC 0", "pyr q/ABC", "fetch q/ABC 0 110", "getfault q/ABC d2", "getfault q/ABC h1", "reinit", "read q/ABC"}},
 	// reading the manifest / intermediate chunk of a cached file under its context must not mark data chunk 0
 	{ID: "fix-bit0-intermediate", NT: true, Ops: []string{"pup q/ABC 0", "pyr q/ABC", "get q/ABC h0", "get q/ABC h1", "get q/ABC h2", "get q/ABC h3", "fetch q/ABC 0 010", "read q/ABC"}},
 	{ID: "fix-bit0-pin-traversal", NT: true, Ops: []string{"pup u/BA 0", "pyr u/BA", "pin u/BA", "unpin u/BA"}},
@@ -46,7 +50,7 @@ func (prop) Gen(r *core.Rand, tier string) []core.Case {
 	}
 	cs := append([]core.Case(nil), fixed...)
 	for i := 0; i < n; i++ {
-		cfg := nodelite.GenConfig{MinOps: 6, MaxOps: 18, PinUploads: 10, Pins: 8, Deletes: 10, GC: 6, Cache: 24, Partial: true, Gets: 16, Ask: 8, Serve: 14, Reinit: 8, Reads: 3, Dirs: true, Budget: 7}
+		cfg := nodelite.GenConfig{MinOps: 6, MaxOps: 18, PinUploads: 10, Pins: 8, Deletes: 10, GC: 6, Cache: 24, Partial: true, Gets: 16, Ask: 8, Serve: 14, GetFault: 9, Reinit: 8, Reads: 3, Dirs: true, Budget: 7}
 		ops := nodelite.GenHistory(r.Fork(), cfg)
 		cs = append(cs, core.Case{ID: fmt.Sprintf("g%d", i), NT: nontrivial(ops), Ops: ops})
 	}
@@ -64,7 +68,7 @@ func nontrivial(ops []string) bool {
 			}
 		case "pyr":
 			partial = true
-		case "get", "del", "pin", "unpin", "serve":
+		case "get", "getfault", "del", "pin", "unpin", "serve":
 			ctxread = true
 		}
 	}
